@@ -121,7 +121,7 @@ def main(tier):
                     for phase in ('before_final_setup', 'after_final_setup', 'after_run'):
                         cases.append((shape, name, units, idx, phase))
     if not big:
-        cases = [c for k, c in enumerate(cases) if k % 3 == 0 or (c[3] is not None and isinstance(c[3], tuple) and any(isinstance(t, list) for t in c[3]))]
+        cases = [c for k, c in enumerate(cases) if k % 3 == 0 or isinstance(c[3], int) or (c[3] is not None and isinstance(c[3], tuple) and (any(isinstance(t, list) for t in c[3]) or all(isinstance(t, int) for t in c[3])))]
     import multiprocessing as mp
     with mp.get_context('fork').Pool(16) as pool:
         res = pool.map(one, cases, chunksize=8)
